@@ -21,7 +21,7 @@ from .shard import Shard, dumps, jsonable
 VERIF = os.path.dirname(os.path.dirname(os.path.dirname(os.path.abspath(__file__))))
 EVIDENCE_DIR = os.path.join(VERIF, "evidence")
 REPLAY_DIR = os.path.join(VERIF, "replays")
-MAX_REPORTED = 5
+MAX_REPORTED = 6
 GLOBAL_OUTCOME_CAP = 3_000_000
 
 
@@ -339,7 +339,16 @@ def _run_check(prop, tier, seed, nproc, only, budget, write, root, tree):
     uniq = {}
     for v in sorted(total["violations"], key=lambda v: (v["space"], v["rank"], v["key"])):
         uniq.setdefault((v["space"], v["key"]), v)
-    cand = list(uniq.values())[:MAX_REPORTED]
+    # report round-robin over violation classes (call-site signature or key prefix) so that distinct defects all surface
+    by_class = {}
+    for v in uniq.values():
+        cls = v["sig"] if v["sig"] is not None else "|".join(v["key"].split("|")[:2])
+        by_class.setdefault(cls, []).append(v)
+    cand = []
+    while len(cand) < MAX_REPORTED and any(by_class.values()):
+        for cls in sorted(by_class):
+            if by_class[cls] and len(cand) < MAX_REPORTED:
+                cand.append(by_class[cls].pop(0))
     from concurrent.futures import ThreadPoolExecutor
     with ThreadPoolExecutor(max(1, len(cand))) as ex:
         confirmed = list(ex.map(lambda v: confirm(prop, tier, spaces, v), cand))
